@@ -27,9 +27,14 @@ def cli_san():
     return common.build_cxx("xcmp_san", ["repo:xcmp.cpp", "repo:hex.cpp"], flavour="cli-san")
 
 
+def fuzz_target():
+    return common.build_cxx("fz_x", ["fz_x.cpp", "repo:hex.cpp"], flavour="fuzz")
+
+
 def build():
     harness()
     cli_san()
+    fuzz_target()
     return common.build_cli()
 
 
@@ -39,7 +44,7 @@ def corpus(rnd):
     return bytegen.x_corpus(rnd, 150, shipped)
 
 
-def run(tier, replay=None, which=WHICH, pid=PID, harness_fn=None, cli_fn=None, corpus_fn=None, tool="xcmp"):
+def run(tier, replay=None, which=WHICH, pid=PID, harness_fn=None, cli_fn=None, corpus_fn=None, tool="xcmp", fuzz_fn=None):
     v = Verdict(pid, tier)
     exe = (harness_fn or harness)()
     clis = (cli_fn or cli_san)()
@@ -82,8 +87,17 @@ def run(tier, replay=None, which=WHICH, pid=PID, harness_fn=None, cli_fn=None, c
         top = sorted(d.items(), key=lambda kv: -kv[1])[:60]
         v.cov["diagnostics_seen"] = dict(top)
         v.cov["distinct_diagnostics"] = len(d)
+    if which == "x":
+        items = [("kind-matrix", bytegen.kind_matrix_program(k, u).encode("latin-1")) for k in bytegen.KINDS for u in bytegen.USES]
+        items += [("odd-semantics", f.encode("latin-1")) for f in bytegen.odd_x_forms()]
+        fuzzcheck.fixed_cases(v, which, exe, items)
+    else:
+        fuzzcheck.fixed_cases(v, which, exe, [("odd", f.encode("latin-1")) for f in bytegen.odd_asm_forms()])
     fuzzcheck.confirm_timeouts(v, which, exe, touts)
     v.count("watchdog_firings", len(touts))
+    fz_seconds = int(os.environ.get("VERIF_FUZZ_SECONDS", "0" if tier == "quick" else ("1200" if which == "x" else "900")))
+    if fz_seconds > 0:
+        fuzzcheck.libfuzzer_stage(v, which, (fuzz_fn or fuzz_target)(), exe, corp, fz_seconds)
     fuzzcheck.cli_sample(v, which, clis, 400 if tier == "quick" else 20000, rnd, corp)
     nvg = 200 if tier == "quick" else 5000
     items = [(bytegen.x_case if which == "x" else bytegen.asm_case)(rnd, corp) for _ in range(nvg)]
